@@ -15,7 +15,7 @@ func init() {
 		Run: c15,
 		Level: "Structural necessary conditions of meta-replica convergence, decided exhaustively over the constructs named: every command type has an apply handler; every field of every catalogue struct reachable from meta.Data is carried by its clone, marshal and unmarshal functions on every path (whole-value copies counted, reference-typed fields must be re-assigned from a copy), frozen exceptions with reasons; " +
 			"apply handlers use no wall clock or random source outside the frozen deletion-stamp sites; Apply and ApplyBatch agree on term/index/op-map bookkeeping; the snapshot is a clone taken under the store lock and Persist marshals that clone. " +
-			"NOT decided: equality of final catalogues for all logs (value-level), protobuf library behaviour, map-iteration order effects beyond the frozen table.",
+			"marshal loops over catalogue members copy every element, clone loops store fresh copies and never the source's own slice/map/pointer elements; NOT decided: equality of final catalogues for all logs (value-level), protobuf library behaviour, map-iteration order effects beyond the frozen table.",
 		Assumptions: commonAssumptions,
 		Technique:   "static analysis: enum-vs-map-key exhaustiveness, struct-graph field coverage (reads/writes/whole copies, path cuts for early returns), reachability-scoped forbidden-call scan, sibling agreement",
 		Rules:       "C15.R1 R2 R3 R4 R5",
